@@ -42,6 +42,8 @@ ANALYTIC = {'plane', 'sphere', 'capsule'}
 # capsule-capsule: math.closest_segment_to_segment_points divides by (denom + 1e-6): closest points (hence pos/normal)
 # are only accurate to ~1e-5 relative; geometry is compared at TOL_CAPCAP and downstream comparisons are skipped.
 TOL_CAPCAP = 1e-3
+TOL_LOOSE = 5e-3       # constraints/solver/step of states with an active capsule-capsule contact (not calibrated: bounds the
+                       # propagated 1e-6..1e-5 closest-point error; feature-specific mutants change these quantities by O(0.1-1))
 GEOM_NAMES = {0: 'plane', 1: 'hfield', 2: 'sphere', 3: 'capsule', 4: 'ellipsoid', 5: 'cylinder', 6: 'box', 7: 'mesh'}
 
 
@@ -111,6 +113,20 @@ VEL_FIELDS = ('cvel', 'cdof_dot')
 DYN_FIELDS = ('qfrc_bias', 'qfrc_passive', 'qfrc_actuator', 'actuator_force', 'act_dot', 'qfrc_smooth')
 IMPL_KIN = ('cinert',)
 IMPL_VEL = ('ten_velocity', 'actuator_velocity')
+
+
+def cross_tree_tendon(tm, field):
+  """True if a tendon with non-zero `field` (tendon_armature / tendon_damping) has Jacobian columns in more than one
+  kinematic tree."""
+  if not tm.ntendon:
+    return False
+  val = np.asarray(getattr(tm, field))
+  tree = np.asarray(tm.dof_treeid)
+  adr, nnz, col = np.asarray(tm.ten_J_rowadr), np.asarray(tm.ten_J_rownnz), np.asarray(tm.ten_J_colind)
+  for t in range(tm.ntendon):
+    if val[t] > 0 and len({int(tree[c]) for c in col[adr[t]:adr[t] + nnz[t]]}) > 1:
+      return True
+  return False
 
 
 def full_m_mjx(mjx, mx, dxi):
@@ -224,7 +240,8 @@ def compare_contacts(tm, td, dxi, pairs, worst):
   return status
 
 
-def compare_efc(lib, tm, td, dxi, worst):
+def compare_efc(lib, tm, td, dxi, worst, tol=None):
+  tol = TOL_EFC if tol is None else tol
   nefc = int(td.nefc)
   Jc = c_dense(lib, tm, td, 'efc_J')
   arc = np.asarray(td.efc_aref)[:nefc].copy()
@@ -259,14 +276,14 @@ def compare_efc(lib, tm, td, dxi, worst):
     k = min(free, key=dist)
     e = dist(k)
     worstrow = max(worstrow, e)
-    if e > TOL_EFC:
+    if e > tol:
       raise Violation('constraint row %d of the C engine (type %d id %d) has no MJX counterpart within %.1g: best '
                       'candidate differs by %.3g (J err %.3g, aref C=%.12g MJX=%.12g, D C=%.12g MJX=%.12g)' % (
-                          r, int(td.efc_type[r]), int(td.efc_id[r]), TOL_EFC, e,
+                          r, int(td.efc_type[r]), int(td.efc_id[r]), tol, e,
                           float(np.max(np.abs(Jx[k] - Jc[r]))), arc[r], arx[k], Dc[r], Dx[k]), bucket='efc-rows')
     free.remove(k)
     perm.append((r, act[k]))
-  worst.add('efc.rows', worstrow)
+  worst.add('efc.rows' if tol == TOL_EFC else 'efc.rows(loose)', worstrow)
   return perm, jdotv
 
 
@@ -339,26 +356,31 @@ def compare_state(ck, lib, c, s, tf, ts, dxf, dxs, worst, info):
     if mask.any():
       chk('sensordata.' + tag, np.asarray(tf.sensordata)[mask], np.asarray(dxf.sensordata)[mask], tol, 'sensor-' + tag)
   sens((1, 2), TOL_SENS, 'posvel')
-  if status != 'ok':
+  # capsule-capsule contacts carry the ~1e-6 error of MJX's regularised closest-point computation (F18): constraints,
+  # solver and step are still compared, with the loose tolerance TOL_LOOSE instead of the calibrated ones
+  loose = status == 'deviation:capsule-capsule-eps'
+  if status != 'ok' and not loose:
     return dict(status=status, ncon=ncon)
+  t_efc, t_solve, t_step, tag = (TOL_LOOSE, TOL_LOOSE, TOL_LOOSE, '(loose)') if loose else (TOL_EFC, TOL_SOLVE, TOL_STEP, '')
+  okname = 'ok-loose:capsule-capsule' if loose else 'ok'
 
   # ---- constraints
-  perm, jdotv = compare_efc(lib, tm, tf, dxf, worst)
+  perm, jdotv = compare_efc(lib, tm, tf, dxf, worst, t_efc)
   nrows = len(perm)
   if jdotv:
     return dict(status='deviation:jdotv', ncon=ncon, nrows=nrows)
   scale = max(1.0, cond)
-  chk('qacc', tf.qacc, dxf.qacc, TOL_SOLVE * scale, 'qacc')
-  chk('qfrc_constraint', tf.qfrc_constraint, dxf.qfrc_constraint, TOL_SOLVE * scale, 'qfrc_constraint')
+  chk('qacc' + tag, tf.qacc, dxf.qacc, t_solve * scale, 'qacc')
+  chk('qfrc_constraint' + tag, tf.qfrc_constraint, dxf.qfrc_constraint, t_solve * scale, 'qfrc_constraint')
   if perm:
     fc = np.asarray(tf.efc_force)[[p[0] for p in perm]]
     fx = np.asarray(dxf._impl.efc_force)[[p[1] for p in perm]]
-    chk('efc_force', fc, fx, TOL_SOLVE * scale * 10, 'efc_force')
+    chk('efc_force' + tag, fc, fx, t_solve * scale * 10, 'efc_force')
   if info['nefc_slots'] == 0 and not FINDINGS:
     # candidate finding F3: forward() returns before sensor.sensor_acc when the model has no constraint rows
     pass
   else:
-    sens((3,), TOL_SOLVE * scale * 10, 'acc')
+    sens((3,), t_solve * scale * 10, 'acc' + tag)
   # ---- step
   skip = info['skip_step']
   if skip is None and info['implicitfast'] and not FINDINGS:
@@ -370,10 +392,10 @@ def compare_state(ck, lib, c, s, tf, ts, dxf, dxs, worst, info):
   chk('step.act', ts.act, dxs.act, TOL_DYN, 'step-act')
   chk('step.time', np.array([ts.time]), np.array([float(dxs.time)]), 1e-14, 'step')
   if skip:
-    return dict(status='ok-nostep:' + skip, ncon=ncon, nrows=nrows)
-  chk('step.qvel', ts.qvel, dxs.qvel, TOL_STEP * scale, 'step')
-  chk('step.qpos', ts.qpos, dxs.qpos, TOL_STEP * scale, 'step')
-  return dict(status='ok', ncon=ncon, nrows=nrows)
+    return dict(status=okname + '-nostep:' + skip, ncon=ncon, nrows=nrows)
+  chk('step.qvel' + tag, ts.qvel, dxs.qvel, t_step * scale, 'step')
+  chk('step.qpos' + tag, ts.qpos, dxs.qpos, t_step * scale, 'step')
+  return dict(status=okname, ncon=ncon, nrows=nrows)
 
 
 class Runner:
@@ -406,9 +428,10 @@ class Runner:
       return
     states = []
     for sd, settle in zip(seeds, settle_list):
-      s = gx.make_state(lib, tm, sd, settle=settle)
+      ps = gm.info.get('pos_scale', 1.0)
+      s = gx.make_state(lib, tm, sd, settle=settle, pos_scale=ps)
       if s is None:      # diverged while settling: fall back to the raw state
-        s = gx.make_state(lib, tm, sd, settle=0)
+        s = gx.make_state(lib, tm, sd, settle=0, pos_scale=ps)
       states.append(s)
     lib.warnings()
     if any(x is None for x in states):
@@ -428,6 +451,11 @@ class Runner:
         # attached to a mocap body are placed relative to the model pose of their parent, not its mocap pose
         ck.discard('finding:child-of-mocap-body-kinematics')
         return
+    if cross_tree_tendon(c.tm, 'tendon_armature') and not FINDINGS:
+      # candidate finding F21 (C engine): mj_tendonArmature adds armature*J'J only inside the tree-local sparsity pattern
+      # of M, entries coupling different kinematic trees are dropped; MJX (dense M) keeps them
+      ck.discard('finding:cross-tree-tendon-armature')
+      return
     crash = gx.known_mjx_crash(c, gm)
     if crash and not FINDINGS:
       ck.discard(crash)        # candidate findings F2 / F15 (exceptions raised by mjx.forward on accepted models)
@@ -456,9 +484,9 @@ class Runner:
       if np.any(np.asarray(tm.jnt_type) == 0):
         # candidate finding F11: the C engine applies gyroscopic derivatives to standalone free bodies (mjd_freeMhat)
         skip_step = 'implicitfast-free-body'
-      elif tm.ntendon and np.any(np.asarray(tm.tendon_damping) > 0):
+      elif cross_tree_tendon(tm, 'tendon_damping'):
         # candidate finding F14: C qDeriv keeps only tree-local entries of the tendon-damping derivative, MJX is dense
-        skip_step = 'implicitfast-tendon-damping'
+        skip_step = 'implicitfast-cross-tree-tendon-damping'
     dsbl_act = 'actuation' in gm.info['option']['flags']
     sens_mask = np.ones(int(tm.nsensordata), dtype=bool)
     if dsbl_act and tm.nsensor and not FINDINGS:
@@ -541,7 +569,7 @@ RULE = ('models: vf.gen_mjx.models (1-3 bodies, free/ball/hinge/slide joints, sp
         'ellipsoid/cylinder geoms + plane, fixed/spatial tendons, equalities, actuators incl. stateful, sensors, mocap; '
         'Euler/RK4/implicitfast, Newton, both cones) x batch of states (odd ones settled by 5-40 C steps so contacts/limits '
         'are active); one jit(vmap(step)) per model; a case = (model, state). Non-trivial = nv>=3 and (active contact in '
-        'some state of the model or tendon/equality present) and the state was compared through constraints, solver '
+        'some state of the model or tendon/equality present; one feature-pinned template per worker: capsule-capsule/elliptic, tendons, RK4) and the state was compared through constraints, solver '
         'and (unless excluded) step; distinct by (model XML, state seed). Gate family: one unsupported feature each, must '
         'raise NotImplementedError. The run is time-budgeted (jit cost depends on machine load).')
 ASSUMPTIONS = [
@@ -567,7 +595,7 @@ def shard_main(ck, shard, nshards):
   nstates = 6 if ck.quick else 12
   import time as _t
   t_start = _t.time()
-  t_budget = float(os.environ.get('C43_TIME', 100 if ck.quick else 1200))
+  t_budget = float(os.environ.get('C43_TIME', 80 if ck.quick else 1200))
 
   def test(case):
     gm, seeds = case
@@ -578,6 +606,14 @@ def shard_main(ck, shard, nshards):
       return
     settle = [0 if k % 2 == 0 else (5 + 7 * k) % 41 for k in range(len(seeds))]
     R.run_model(gm, seeds, settle)
+  # one feature-pinned template per worker first (see vf/gen_mjx.py), then random structures
+  kind = ('contact', 'tendon', 'rk4')[shard % 3]
+
+  def test_pinned(case):
+    gm, seeds = case
+    R.run_model(gm, seeds, [0 if k % 2 == 0 else 3 + k for k in range(len(seeds))])
+  ck.run_hypothesis(test_pinned, st.tuples(gx.pinned(kind), st.lists(mg.state_seed(), min_size=nstates, max_size=nstates, unique=True)),
+                    1 if ck.quick else 4, name='pinned-%s-%d' % (kind, shard), shrink=False)
   strat = st.tuples(gx.models(max_bodies=(2 if ck.quick else 3)),
                     st.lists(mg.state_seed(), min_size=nstates, max_size=nstates, unique=True))
   ck.run_hypothesis(test, strat, nmodels, name='mjx-vs-c-%d' % shard, shrink=False)
